@@ -192,6 +192,12 @@ def run_units(pid, tier, seed):
             continue
         failed = re.findall(r"^\s*--- FAIL: (\S+)", text, flags=re.M)
         is_violation = bool(failed) or (j["kind"] == "fuzz" and "Failing input written to" in text)
+        if failed and "[rapid] only generated" in text and "[rapid] failed after" not in text and "[rapid] panic after" not in text \
+                and "flaky test" not in text:
+            # the generator skipped too many cases: a generator problem, never a property violation
+            sys.stderr.write("INCONCLUSIVE unit=%s shard=%d: rapid could not generate enough valid cases\n" % (j["u"]["name"], j["k"]))
+            infra = True
+            continue
         if not is_violation:
             sys.stderr.write("INFRASTRUCTURE failure unit=%s shard=%d rc=%d, log tail:\n%s\n" % (
                 j["u"]["name"], j["k"], j["rc"], text[-3000:]))
